@@ -17,6 +17,11 @@ for pid, c in sorted(T.CHECKS.items()):
         "level_note": c["note"],
         "technique": c["technique"],
     })
+NA = dict(T.NOT_APPLICABLE)
+for i in range(1, 21):
+    p = "C%02d" % i
+    if p not in T.CHECKS and p not in NA:
+        NA[p] = "no check registered yet: the harnesses planned for it in DESIGN.md are not built at this commit"
 m = {
     "version": 1,
     "setup_cmd": "./setup.sh",
@@ -30,7 +35,7 @@ m = {
     "engines": T.ENGINES,
     "checks": checks,
     "notes": T.NOTES,
-    "not_applicable": [{"property_id": p, "reason": r} for p, r in sorted(T.NOT_APPLICABLE.items())],
+    "not_applicable": [{"property_id": p, "reason": r} for p, r in sorted(NA.items())],
 }
 json.dump(m, open(os.path.join(os.path.dirname(os.path.dirname(os.path.abspath(__file__))), "MANIFEST.json"), "w"), indent=1)
 print("checks:", [c["property_id"] for c in checks], "n/a:", sorted(T.NOT_APPLICABLE))
